@@ -158,6 +158,26 @@ def rule_id_keep(db: ProgramDB) -> List[Instance]:
                 out.append(inst("ID-KEEP", HOLDS if ok else VIOLATION, fn, f"{fn.short}[{unparse(c)[:40]}]",
                                 f"`{unparse(c)[:50]}` copies a binding/dict, not a user object" if ok else
                                 f"`{unparse(c)[:50]}` copies a user object: identity of existing objects is lost", line=c.lineno))
+    # a constant handed to the language (a field value, an operand) IS the value: the wrapper that makes it an expression keeps the object
+    lit = db.cls("Literal", required=False)
+    init = lit.methods.get("__init__") if lit is not None else None
+    if init is not None:
+        p0 = init.positional_params[1]
+        bad = None
+        for c in own_calls(init):
+            d = (dotted(c.func) or "").split(".")[-1]
+            if d in ("copy", "deepcopy", "list", "dict", "set", "tuple", "frozenset", "sorted") and c.args and isinstance(c.args[0], ast.Name) and c.args[0].id == p0:
+                bad = c
+            if isinstance(c.func, ast.Attribute) and c.func.attr == "copy" and isinstance(c.func.value, ast.Name) and c.func.value.id == p0:
+                bad = c
+            if isinstance(c.func, ast.Call) and dotted(c.func.func) == "type" and c.args and isinstance(c.args[0], ast.Name) and c.args[0].id == p0:
+                bad = c
+        n += 1
+        out.append(inst("ID-KEEP", VIOLATION if bad is not None else HOLDS, init, f"Literal.__init__[the constant `{p0}` is wrapped as it is]",
+                        "the object given as a constant is the value of the literal" if bad is None else
+                        f"`{unparse(bad)}` makes a copy of the constant: a list / dict / set (or the dataset itself) given as a field value of a rule head reaches the "
+                        f"instances as a shallow copy - `instance.items is the_list` fails, and what the caller adds to the list afterwards is not seen",
+                        line=bad.lineno if bad is not None else init.lineno))
     i2 = [i for i in rule_infer_one_per_binding(db) if i.rule == "ID-KEEP"]
     return out + i2
 
